@@ -29,6 +29,7 @@ Step(v) == /\ l' = l + 1
            /\ PubResult(viol', l')
 Upd(f, k, v) == [x \in (DOMAIN f) \cup {k} |-> IF x = k THEN v ELSE f[x]]
 
+AddLen(t, seg) == LET lo == t[2] + seg[4] IN << t[1] + seg[3] + (lo \div 1048576), lo % 1048576 >>
 RECURSIVE MsgBytes(_)
 MsgBytes(ss) == IF Len(ss) = 0 THEN << >> ELSE PatBytes(ss[1][1], ss[1][2], ss[1][4]) \o MsgBytes(Tail(ss))
 
@@ -38,7 +39,7 @@ TInit == l = 1 /\ mst = << >> /\ rst = << >> /\ viol = << >> /\ PubResult(<< >>,
 TMhInit ==
   /\ IsEv("MhInit") /\ UNCHANGED rst
   /\ LET e == Tr[l] IN
-     /\ mst' = Upd(mst, e.sid, [alg |-> e.alg, fam |-> e.fam, seed |-> FromHex(e.seed), segs |-> << >>, big |-> FALSE, n |-> 0,
+     /\ mst' = Upd(mst, e.sid, [alg |-> e.alg, fam |-> e.fam, seed |-> FromHex(e.seed), segs |-> << >>, big |-> FALSE, n |-> 0, tot |-> << 0, 0 >>,
                                 ok |-> e.obs.fault = 0])
      /\ Step(Chk(e.rc = 0, "C16", "mh-init-rc", l, << e.alg, e.fam, e.rc >>) \o MachineChecks(e, e.fam))
 
@@ -47,9 +48,19 @@ TMhUpdate ==
   /\ LET e == Tr[l]  s == mst[e.sid] IN
      \* the stream is the list of segments <<buffer, offset, length hi, length lo>> (length = hi * 2^20 + lo)
      /\ mst' = [mst EXCEPT ![e.sid] = [s EXCEPT !.segs = Append(s.segs, e.data), !.big = s.big \/ e.data[3] > 0 \/ s.n + e.data[4] > 65536,
-                                                !.n = IF e.data[3] > 0 THEN s.n ELSE s.n + e.data[4],
+                                                !.n = IF e.data[3] > 0 THEN s.n ELSE s.n + e.data[4], !.tot = AddLen(s.tot, e.data),
                                                 !.ok = s.ok /\ e.obs.fault = 0]]
-     /\ Step(Chk(e.rc = 0, "C16", "mh-update-rc", l, << s.alg, s.fam, e.rc >>) \o MachineChecks(e, s.fam))
+     /\ LET s1 == mst'[e.sid]
+             tot1 == AddLen(s.tot, e.data)
+             \* MhCarry!CarryIsResidue on the real context: total_length is the running total and the partial block buffer
+             \* carries exactly the last (total mod 1024) bytes of the stream (implementation-shaped: MODEL-DRIFT only)
+             carry == IF "tl" \in DOMAIN e /\ s.ok
+                      THEN    Chk(e.tl = tot1, "DRIFT", "mh-context-total-length", l, << s.alg, s.fam, e.tl, tot1 >>)
+                           \o (IF s1.big THEN << >>
+                               ELSE LET m == MsgBytes(s1.segs)  r == Len(m) % 1024
+                                    IN Chk(e.pb = ToHex(SubSeq(m, Len(m) - r + 1, Len(m))), "DRIFT", "mh-carried-bytes", l, << s.alg, s.fam, Len(m), r >>))
+                      ELSE << >>
+        IN Step(Chk(e.rc = 0, "C16", "mh-update-rc", l, << s.alg, s.fam, e.rc >>) \o carry \o MachineChecks(e, s.fam))
 
 Prop(alg) == IF alg = "murmur" THEN "C10" ELSE "C05"
 TMhFinal ==
@@ -100,6 +111,9 @@ TRhRun ==
                             info \o << e.off, e.match, r.off, r.hit >>)
                      \o Chk(e.hash = ToHex(r.h), "C09", "hash-after-run", l, info \o << e.hash, ToHex(r.h) >>)
                      \o Chk(r.h = H(r.hist), "SPEC", "recurrence-vs-closed-form", l, info)
+                     \* implementation-shaped: the state's saved window is the last w bytes of the stream, in order
+                     \o (IF "hist" \in DOMAIN e /\ e.off = r.off
+                         THEN Chk(e.hist = ToHex(r.hist), "DRIFT", "rh-saved-window", l, info \o << e.hist, ToHex(r.hist) >>) ELSE << >>)
                      \o Chk(e.rc = 0, "C16", "rh-run-rc", l, info \o << e.rc >>)
                      \o MachineChecks(e, s.fam))
 
